@@ -478,7 +478,11 @@ def gen_object(rng, depth, plain=False, top=False):
         s["required"] = [k for k, p in props.items() if "default" not in p or rng.random() < 0.3]
     elif r < 0.2:
         s["required"] = list(props)
-    if rng.random() < 0.15:
+    # the author may write additionalProperties either way: modify_schema forces it to false
+    r = rng.random()
+    if r < 0.2:
+        s["additionalProperties"] = True
+    elif r < 0.3:
         s["additionalProperties"] = False
     return s
 
@@ -599,6 +603,13 @@ def mutate_value(rng, s, v):
         t = "object"
     if t == "object" and isinstance(v, dict):
         props = s.get("properties", {})
+        r = rng.random()
+        if s.get("additionalProperties") is True and r < 0.6:
+            out = dict(v)
+            extra = rng.choice(["extra", "zz", "a ", "A1", "unknown"])
+            if extra not in props:
+                out[extra] = rng.choice([1, None, "x", [1], {"q": 2}])
+                return out, "schema"
         r = rng.random()
         keys = [k for k in v if k in props]
         if keys and r < 0.55:
@@ -873,7 +884,9 @@ def coq_value(s, v):
 def coq_schema(s):
     t = s.get("type")
     if isinstance(t, list) or t == "object":
-        if set(s) - OBJ_KEYS or s.get("additionalProperties", False) is not False:
+        # "additionalProperties" is dropped: modify_schema overwrites it with false whatever the
+        # author wrote (ret["additionalProperties"] = False), which is all the model's [valid] knows
+        if set(s) - OBJ_KEYS or not isinstance(s.get("additionalProperties", False), bool):
             raise Untranslatable("object keywords")
         props = []
         for k, p in s.get("properties", {}).items():
@@ -1201,6 +1214,13 @@ def handwritten_cases():
     yield {"schema": S({"o": {"type": "object", "properties": {"a": I32, "b": I32}, "required": ["b"],
                               "default": {"a": 5, "b": 6}}}),
            "values": [{"o": {"b": 1}}, {"o": {"a": 1, "b": 2}}, {}]}
+    # explicit additionalProperties: true (top level, nested, array items) is overridden
+    yield {"schema": S({"a": I32, "o": {"type": "object", "properties": {"b": I32}, "additionalProperties": True},
+                        "w": {"type": "array", "arrayLengthFormat": "B",
+                              "items": {"type": "object", "properties": {"c": I32}, "additionalProperties": True}}},
+                       additionalProperties=True),
+           "values": [{"a": 1, "o": {"b": 2}, "w": [{"c": 3}]}, {"a": 1, "o": {"b": 2}, "w": [], "extra": 5},
+                      {"a": 1, "o": {"b": 2, "extra": 5}, "w": []}, {"a": 1, "o": {"b": 2}, "w": [{"c": 3, "extra": None}]}]}
     # property names that collide with schema keywords
     for nm in ("properties", "type", "required", "default", "items", "null", "index", "additionalProperties", "binaryFormat"):
         yield {"schema": S({nm: I32, "z": I32}), "values": [{nm: 1, "z": 2}]}
